@@ -263,6 +263,36 @@ return ok
 """
             out.append(mk_case(f"c02.equal_operands.{op}.{op2}", [("t1", "int"), ("s1", "int"), ("x", U), ("y", "int")], body,
                                pre=[f"BU({L}, t1, s1, x, y)"]))
+    # operands that compare equal (`==`: callable name and `==`-equal arguments) yet filter differently - user-supplied callables with
+    # the same __name__ (two lambdas), in_range with an int vs an equal float bound: the combination is still the pointwise
+    # combination of what EACH operand gives (no operand may be dropped or merged into the other)
+    PAIRS = {
+        "lambdas": "(Value(lambda v: isinstance(v, int) and v > t1), Value(lambda v: isinstance(v, int) and v < s1))",
+        "same_name": "(Value(first), Value(check))",
+        "in_range.float_lower": "(Value.in_range(0, 4), Value.in_range(0.0, 4))",
+        "in_range.float_upper": "(Value.in_range(0, 4.0), Value.in_range(0, 4))",
+    }
+    for op in OPS:
+        for pid, pair in PAIRS.items():
+            body = f"""
+import operator
+OP = {{'and': operator.and_, 'or': operator.or_, 'xor': operator.xor}}[{op!r}]
+BOOL = {{'and': (lambda p, q: p and q), 'or': (lambda p, q: p or q), 'xor': (lambda p, q: p != q)}}[{op!r}]
+doc = [x, 3]
+def check(v):
+    return isinstance(v, int) and v > t1
+first = check
+def check(v):
+    return isinstance(v, int) and v < s1
+a, b = {pair}
+ra, rb = a.filter(doc).result, b.filter(doc).result
+ok = same('a op b', OP(a, b).filter(doc).result, [BOOL(p, q) for p, q in zip(ra, rb)])
+ok = ok and same('b op a', OP(b, a).filter(doc).result, [BOOL(q, p) for p, q in zip(ra, rb)])
+ok = ok and same('(a op b) op true', OP(OP(a, b), Value.null()).filter(doc).result, [BOOL(BOOL(p, q), True) for p, q in zip(ra, rb)])
+ok = ok and same('operands filter as before', (a.filter(doc).result, b.filter(doc).result), (ra, rb))
+return ok
+"""
+            out.append(mk_case(f"c02.lookalike_operands.{op}.{pid}", [("t1", "int"), ("s1", "int"), ("x", "int")], body, pre=["I64(t1, s1, x)"]))
     # the `null` *callable* (Value.null(), Key.null(), Index.null(), {'value.null': None}) is an ordinary always-true leaf, not
     # the NullCondition identity: true | x is all-true, true ^ x is not-x
     for op in OPS:
